@@ -22,11 +22,12 @@ pub struct Gen {
     pub n_struct: usize,
     pub n_clos: usize,
     pub n_tmp: usize,
+    pub chans: Vec<usize>, // queued item counts of string channels c0..
 }
 
 impl Gen {
     pub fn new(seed: u64) -> Gen {
-        let mut g = Gen { rng: Rng::new(seed), src: String::new(), n_str: 0, arrs: vec![], nests: vec![], n_struct: 0, n_clos: 0, n_tmp: 0 };
+        let mut g = Gen { rng: Rng::new(seed), src: String::new(), n_str: 0, arrs: vec![], nests: vec![], n_struct: 0, n_clos: 0, n_tmp: 0, chans: vec![] };
         g.src.push_str("type Pt = { name: string, items: array<string> }\n");
         g.src.push_str("type Tr = | Leaf(string) | Node(array<string>)\n");
         g.new_str();
@@ -48,7 +49,7 @@ impl Gen {
         }
     }
     pub fn stmt(&mut self) {
-        match self.rng.below(15) {
+        match self.rng.below(19) {
             0 => {
                 self.new_str();
             }
@@ -152,6 +153,37 @@ impl Gen {
                 let s2 = self.some_str();
                 self.src.push_str(&format!("let e{k} = Tr.Leaf({s2} .. \"#\")\nmatch e{k} {{ .Leaf(x) -> println(x), .Node(y) -> println(y.len()) }}\n"));
             }
+            15 | 16 => {
+                // channels used within one thread: a queue object whose contents are heap values.
+                // `c.write(a.pop())` moves the only reference from an array into the channel.
+                if self.chans.is_empty() || self.rng.chance(1, 5) {
+                    let k = self.chans.len();
+                    self.src.push_str(&format!("let c{k}: channel<string> = channel()\n"));
+                    self.chans.push(0);
+                } else {
+                    let c = self.rng.below(self.chans.len() as u64) as usize;
+                    let cands: Vec<usize> = (0..self.arrs.len()).filter(|&i| self.arrs[i] > 0).collect();
+                    if !cands.is_empty() && self.rng.chance(2, 3) {
+                        let a = *self.rng.pick(&cands);
+                        self.src.push_str(&format!("c{c}.write(a{a}.pop())\n"));
+                        self.arrs[a] -= 1;
+                    } else {
+                        let s = self.some_str();
+                        self.src.push_str(&format!("c{c}.write({s} .. \"~\")\n"));
+                    }
+                    self.chans[c] += 1;
+                }
+            }
+            17 => {
+                let cands: Vec<usize> = (0..self.chans.len()).filter(|&i| self.chans[i] > 0).collect();
+                if !cands.is_empty() {
+                    let c = *self.rng.pick(&cands);
+                    let t = self.n_tmp;
+                    self.n_tmp += 1;
+                    self.src.push_str(&format!("let t{t} = c{c}.read()\nprintln(t{t})\n"));
+                    self.chans[c] -= 1;
+                }
+            }
             13 => {
                 // garbage loop
                 let m = 1 + self.rng.below(6);
@@ -173,6 +205,11 @@ impl Gen {
         for p in 0..self.n_struct {
             self.src.push_str(&format!("println(p{p}.name)\nprintln(p{p}.items)\n"));
         }
+        for c in 0..self.chans.len() {
+            for _ in 0..self.chans[c] {
+                self.src.push_str(&format!("println(c{c}.read())\n"));
+            }
+        }
         for t in 0..self.n_str {
             if t % 3 == 0 {
                 self.src.push_str(&format!("println(s{t})\n"));
@@ -188,6 +225,39 @@ pub fn gen_program(seed: u64, n_stmts: usize) -> String {
         g.stmt();
     }
     g.finish()
+}
+
+/// "Mover" programs: an old container `src` (declared first, hence scanned LAST by the LIFO gray stack) holds
+/// the only references to old strings; a destination declared later (scanned FIRST) receives them one by one
+/// through each of the four barriered store paths.  Under a slow marking schedule the destination is already
+/// black while the moved value is still white: exactly the situation the write barrier exists for.
+pub fn mover_program(kind: usize, n: usize) -> String {
+    let mut s = String::from("type Bx = { name: string, n: int }\n");
+    let elems: Vec<String> = (0..n).map(|j| format!("\"m{j}-\" .. {}", j * 7 % 10)).collect();
+    s.push_str(&format!("let src: array<string> = [{}]\n", elems.join(", ")));
+    // some garbage so that the heap is worth collecting
+    s.push_str("var w = 0\nwhile w < 4 {\n  let g = \"junk\" .. w\n  w = w + 1\n}\n");
+    match kind % 4 {
+        0 => {
+            s.push_str("let dst: channel<string> = channel()\n");
+            s.push_str("while src.len() > 0 {\n  dst.write(src.pop())\n}\n");
+            s.push_str(&format!("var k = 0\nwhile k < {n} {{\n  println(dst.read())\n  k = k + 1\n}}\n"));
+        }
+        1 => {
+            s.push_str("let dst: array<string> = []\n");
+            s.push_str("while src.len() > 0 {\n  dst.push(src.pop())\n}\nprintln(dst)\n");
+        }
+        2 => {
+            s.push_str("let dst = Bx(\"none\", 0)\n");
+            s.push_str("while src.len() > 0 {\n  dst.name = src.pop()\n  dst.n = dst.n + 1\n  println(dst.name)\n}\n");
+        }
+        _ => {
+            s.push_str("let dst: array<string> = [\"slot\"]\n");
+            s.push_str("while src.len() > 0 {\n  dst[0] = src.pop()\n  println(dst[0])\n}\n");
+        }
+    }
+    s.push_str("println(src.len())\n");
+    s
 }
 
 /// the reproducer of defect D22 (fixed): must keep printing hello-7
